@@ -101,6 +101,8 @@ def check(ctx: Ctx) -> None:
     check_family(ctx, 'C13.g', ['PathLossBase'], floor=8)
     from ..idioms import check_input_immutability, public_api
     check_input_immutability(ctx, 'C13.h', public_api(ctx.model, [PL, AG]), floor=20)
+    from ..units import check_units
+    check_units(ctx, 'C13.i', [PL, AG], floor=20)
     _check_policy(ctx)
     _check_units(ctx)
     _check_inverse(ctx)
@@ -388,6 +390,12 @@ class P:
 
 
 MUTANTS = [
+    Mutant('linear-loss-passed-to-the-dB-inverse-query', PL, 'PathLossBase.which_distance',
+           [('replace', 'self.which_distance_dB(-conversion.linear2dB(pl))', 'self.which_distance_dB(-pl)')], r'C13\.[ci]:PathLossBase\.which_distance'),
+    Mutant('linear-query-returns-the-level', PL, 'PathLossBase.calc_path_loss',
+           [('replace', 'pl = conversion.dB2Linear(-self.calc_path_loss_dB(d, **kargs))', 'pl = -self.calc_path_loss_dB(d, **kargs)')], r'C13\.[ci]:PathLossBase\.calc_path_loss'),
+    Mutant('antenna-gain-converted-twice', AG, 'AntGainOmni.__init__',
+           [('replace', 'self.ant_gain = dB2Linear(ant_gain)', 'self.ant_gain = dB2Linear(dB2Linear(ant_gain))')], r'C13\.i:AntGainOmni\.__init__'),
     Mutant('swap-fc-setter-statements', PL, 'PathLossFreeSpace.fc@setter',
            [('regex', r'(self\._fc = value)\n(\s*)(self\._C = [^\n]*)', r'\3\n\2\1')], r'C13\.a:PathLossFreeSpace\.fc@setter:_C'),
     Mutant('drop-recompute-in-n-setter', PL, 'PathLossFreeSpace.n@setter',
